@@ -275,6 +275,29 @@ func (g *G) genC07(p *Plan) {
 			}
 		}
 	}
+	if c.Buckets != nil && nup == 0 && !c.Versioned && !c.LinSetVer && recycler < 0 && !c.PathKeys && g.chance(0.12) {
+		// the very first multipart requests a bucket sees, several at once:
+		// every client initiates an upload, then looks for all of them
+		for ci := range p.Clients {
+			mp := []Op{{K: "mpu-init", B: b, Key: g.pick("up-a", "up-b")}}
+			for i, n := 0, g.n(1, 4); i < n; i++ {
+				switch g.rng.Intn(4) {
+				case 0:
+					mp = append(mp, Op{K: "mpu-lsuploads", B: b})
+				case 1:
+					mp = append(mp, Op{K: "mpu-part", Up: g.rng.Intn(nclients), Part: g.n(1, 2), Body: g.body(8 + g.rng.Intn(40))})
+				case 2:
+					mp = append(mp, Op{K: "mpu-lsparts", Up: g.rng.Intn(nclients)})
+				default:
+					mp = append(mp, Op{K: "mpu-lsuploads", B: b}, Op{K: "mpu-init", B: b, Key: "up-c"})
+				}
+			}
+			p.Clients[ci] = append(mp, p.Clients[ci]...)
+			if len(p.Clients[ci]) > 10 {
+				p.Clients[ci] = p.Clients[ci][:10]
+			}
+		}
+	}
 	if churn && len(c.Buckets) == 1 && len(c.LinUploads) == 0 && g.chance(0.5) {
 		// the smallest such history: one version; a batch that names it, a
 		// delete of it and a fresh upload of the key, all three at once
